@@ -41,3 +41,15 @@ CLAIMED['C20'] = ('model_checking',
     '1 GiB address-space limit so that a flipped length field yields the MemoryError the code catches rather than a multi-GB '
     'allocation; hostile pickles are out of scope.',
     TECH + '; exhaustive truncation/bit-flip fault enumeration')
+CLAIMED['C16'] = ('model_checking',
+    'TLC enumerates every layering of 0-3 configuration files and a command line (each independently present/absent, every '
+    'type-appropriate text incl. all boolean words in several capitalisations) for one representative option per type in '
+    'Config.tla and checks the machine (setFromString / updateFromDict per type, in client.main order) against the documented '
+    'precedence (Precedence, InterpCurrent).  Every layering is replayed through the real plasTeX.client.main (run() stubbed, '
+    'real ini files, real argparse) on EVERY real option of that type in every section incl. html5 and mathjax-macros, '
+    'comparing the option under test with the specification and all other options with their defaults (no cross-talk); '
+    'interpolation is read back through the public mapping interface.',
+    'DESIGN.md#c16',
+    'Trusted: TLC, Config.tla, the concretisation of abstract values. The property is a pure function of the layering, so only '
+    'the spec->code direction applies. "Documented default" = the default the option declares.',
+    'TLA+ spec (rule + machine layer) checked by TLC; exhaustive spec->code replay of every layering on every real option')
